@@ -43,6 +43,13 @@ pub fn judge_value(ctx: &Ctx, case: &Value) -> Result<(), Fail> {
         let c: props::frontends::PySeq = serde_json::from_value(c.clone()).map_err(bad)?;
         return props::frontends::replay_py(ctx, &c);
     }
+    if let Some(c) = case.get("cli_rss") {
+        let c: props::frontends::RssCase = serde_json::from_value(c.clone()).map_err(bad)?;
+        return props::frontends::replay_cli_rss(ctx, &c);
+    }
+    if case.get("tower").is_some() {
+        return props::towers::replay(ctx, case);
+    }
     if case.get("dev_profile").is_some() {
         let c: GenCase = serde_json::from_value(case["case"].clone()).map_err(bad)?;
         return props::procs::replay_c09_dev(ctx, &c);
